@@ -22,6 +22,7 @@ RULE = (
     "strictly inside it; corpus: every chart. Each case runs all non-raising option sets x 3 ungroup policies. "
     "Non-trivial when the stream has a head or tail."
 )
+EXHAUSTIVE_PART = "every stream on 2 columns x 3 rows (quick) / 2 x 4 rows and 3 columns x 3 rows (thorough) x all non-raising option sets x 3 ungroup policies"
 ASSUMPTIONS = ["vmon/ref/grouping.py classifies orphans as documented"]
 MONITORS = ["roundtrip", "inside_hold"]
 REQUIRED = ["keysounded_head_joined", "dropped_orphans", "note_inside_hold", "corpus_chart",
@@ -43,6 +44,12 @@ def cases(ctx):
     for bi, c0 in enumerate(range(0, total, block)):
         if ctx.mine(bi):
             yield {"kind": "grid", "rows": rows, "c0": c0, "c1": min(total, c0 + block)}
+    if not quick:
+        # a second exhaustive grid: 3 columns x 3 rows (5^9 streams), for what needs three columns
+        total3 = 5 ** 9
+        for bi, c0 in enumerate(range(0, total3, 625)):
+            if ctx.mine(bi):
+                yield {"kind": "grid", "rows": 3, "cols": 3, "c0": c0, "c1": min(total3, c0 + 625)}
     ctx.exhaustive = True
     if ctx.shard == 0:
         for name, ch in c07.corpus_charts():
@@ -89,14 +96,14 @@ def check(ctx, case):
         ctx.begin(case, nontrivial=False)
         ctx.evaluations -= 1
         for code in range(case["c0"], case["c1"]):
-            notes = c09.grid_stream(code, case["rows"])
+            notes = c09.grid_stream(code, case["rows"], case.get("cols", 2))
             ctx.evaluations += 1
-            ctx.digests.add(hash(("grid", case["rows"], code)) & 0xFFFFFFFFFFFFFFFF)
-            roundtrip(ctx, notes, None, {"kind": "grid1", "rows": case["rows"], "code": code})
+            ctx.digests.add(hash(("grid", case["rows"], case.get("cols", 2), code)) & 0xFFFFFFFFFFFFFFFF)
+            roundtrip(ctx, notes, None, {"kind": "grid1", "rows": case["rows"], "cols": case.get("cols", 2), "code": code})
         return
     if case["kind"] == "grid1":
         ctx.begin(case)
-        roundtrip(ctx, c09.grid_stream(case["code"], case["rows"]), None, case)
+        roundtrip(ctx, c09.grid_stream(case["code"], case["rows"], case.get("cols", 2)), None, case)
         return
     if case["kind"] == "corpus":
         from simfile.notes import NoteData
